@@ -454,6 +454,23 @@ func genParserCases(focus string) func(r *rand.Rand, tier string, env *Env) []Ca
 				files = append(files, []byte("i"), []byte(k+".ra"), []byte(inc[k]))
 			}
 			files = append(files, []byte("e"), []byte("none.ra"), []byte("zzz\n"))
+			{
+				// word lists of several buffer-fulls (20 KiB … 30 KiB): every reader on the way sees more than one chunk
+				var big, skip strings.Builder
+				for w := 0; w < 2500+r.Intn(1000); w++ {
+					fmt.Fprintf(&big, "%sw%05dx%d\n", pick(r, []string{"", "", " ", "\t"}), w*7919%100000, w%13)
+					if w%3 == 0 {
+						fmt.Fprintf(&skip, "w%05dx%d\n", w*7919%100000, w%13)
+					}
+				}
+				bf := append(append([][]byte{}, files...), []byte("i"), []byte("bigwords.ra"), []byte(big.String()), []byte("e"), []byte("bigskip.ra"), []byte(skip.String()))
+				prog := "first\n##!> include bigwords\nlast\n"
+				if focus == "except" {
+					prog = "first\n##!> include-except bigwords bigskip\nlast\n"
+				}
+				args := append(append(append([][]byte{}, empty...), []byte(prog)), bf...)
+				cases = append(cases, Case{Kind: "big-include", Ops: []Op{{"parse.run", args[6:]}}, Oracles: []Op{{"parser.inline", args}}})
+			}
 			for _, k := range names {
 				progs := []string{"a\n##!> include " + k + "\nb\n", "##!> include " + k + "\n", "##!> assemble\nx\n##!> include " + k + "\n##!=>\ny\n##!<\n"}
 				if focus == "except" {
